@@ -1,5 +1,6 @@
 import JSL.Inv.Init
 import JSL.Model.Compile
+import JSL.Inv.Placement
 import Batteries.Data.List.Perm
 
 /-!
@@ -86,5 +87,62 @@ theorem c17_wf_means (inst : Instance) (w : WF inst) :
     ((allBufCfgs inst).map (·.id)).Nodup ∧ (∀ j ∈ inst.jobs, (j.ops.map (·.idx)).Nodup) ∧
     (∀ j ∈ inst.jobs, ∀ o ∈ j.ops, ∃ m ∈ inst.machines, m.id = o.machine) :=
   ⟨w.jobsNodup, w.machNodup, w.trNodup, w.bufNodup, w.opIdxNodup, w.opMachine⟩
+
+/-! ## initial placement (`_map_jobs`, `_get_buffer_state`; tied by the `CB` lines)
+
+A job is its number and the location its own `init_state` entry names (if any); `initStore` is the
+store of a stand-alone buffer given what the buffer's entry lists (if anything). -/
+
+open Compile in
+/-- **a job without an explicit location starts in the input buffer** – it is in that buffer's store
+whatever the buffer lists – and a job with an explicit location is in the store of the buffer named -/
+theorem c17_job_starts_where_it_says (inputId : Nat) (jobs : List (Nat × Option Nat)) (j : Nat) (sp : Option Nat)
+    (hj : (j, sp) ∈ jobs) (listed : Option (List Nat)) :
+    j ∈ initStore inputId jobs (sp.getD inputId) listed :=
+  mem_initStore.2 (Or.inr (mem_locatedIn.2 ⟨sp, hj, rfl⟩))
+
+open Compile in
+/-- **listed buffer contents keep their order**: the store is the listed jobs in the order written,
+followed by the jobs located there that are not listed, in job order -/
+theorem c17_listed_contents_keep_their_order (inputId : Nat) (jobs : List (Nat × Option Nat))
+    (hn : (jobs.map (·.1)).Nodup) (b : Nat) (l : List Nat) (hl : l.Nodup) :
+    initStore inputId jobs b (some l) = l ++ (locatedIn inputId jobs b).filter (fun x => !l.contains x) := by
+  rw [initStore_listed hn, firstOccs_of_nodup hl]
+
+open Compile in
+/-- no store holds a job twice -/
+theorem c17_initial_store_has_no_duplicates (inputId : Nat) (jobs : List (Nat × Option Nat))
+    (hn : (jobs.map (·.1)).Nodup) (b : Nat) (listed : Option (List Nat)) :
+    (initStore inputId jobs b listed).Nodup :=
+  initStore_nodup hn b listed
+
+open Compile in
+/-- **every job is in exactly one buffer, the one its location names**, provided every listing is
+consistent (names only jobs located in that buffer – what the compiler insists on since the
+`fix:` commit recorded in known_findings.json) -/
+theorem c17_every_job_in_exactly_one_buffer (inputId : Nat) (jobs : List (Nat × Option Nat))
+    (hn : (jobs.map (·.1)).Nodup) (listing : Nat → Option (List Nat))
+    (hc : ∀ b, ConsistentListing inputId jobs b (listing b)) (j : Nat) (sp : Option Nat) (hj : (j, sp) ∈ jobs) (b : Nat) :
+    (j ∈ initStore inputId jobs b (listing b) ↔ b = sp.getD inputId) ∧
+    (initStore inputId jobs b (listing b)).count j ≤ 1 := by
+  refine ⟨?_, List.nodup_iff_count.1 (initStore_nodup hn b _) j⟩
+  rw [mem_initStore_consistent (hc b), mem_locatedIn]
+  constructor
+  · rintro ⟨sp', hj', rfl⟩
+    have : (j, sp') = (j, sp) := eq_of_mem_of_key_eq (key := fun (y : Nat × Option Nat) => y.1) hn hj' hj rfl
+    cases this; rfl
+  · rintro rfl
+    exact ⟨sp, hj, rfl⟩
+
+open Compile in
+/-- the consistency hypothesis cannot be dropped: a buffer listing a job that is located elsewhere
+holds it in addition to the buffer the job's location names (the defect repaired in /repo) -/
+theorem c17_foreign_listing_duplicates :
+    1 ∈ initStore 0 [(0, none), (1, none)] 5 (some [1]) ∧ 1 ∈ initStore 0 [(0, none), (1, none)] 0 none := by
+  decide
+
+/-- non-vacuity: three jobs, one in a further buffer that lists it -/
+example : Compile.initStore 0 [(0, none), (1, some 7), (2, none)] 0 (some [2]) = [2, 0] ∧
+    Compile.initStore 0 [(0, none), (1, some 7), (2, none)] 7 (some [1]) = [1] := by decide
 
 end JSL
